@@ -143,8 +143,8 @@ def handle : Handler
       let outW ← fbitsList? outW
       let inW ← fbitsList? inW
       let total ← fbits? total
-      let t32 := round32 total
-      let g : AggGraph Float := AggGraph.init (rows.map fun r => r.map fun p => (p.1, p.2 / t32)) outW inW
+      -- `total_weight` is a C double (repaired code: it was a float and over / underflowed)
+      let g : AggGraph Float := AggGraph.init (rows.map fun r => r.map fun p => (p.1, p.2 / total)) outW inW
       match Paris.fit round32 (← fuel.toNat?) g (← bool? reorder) with
       | .error e => some (showErr e)
       | .ok none => some "fuel"
